@@ -5,6 +5,7 @@ from collections.abc import Callable
 from mypy import join
 from mypy.erasetype import erase_type
 from mypy.maptype import map_instance_to_supertype
+from mypy.nodes import CONTRAVARIANT
 from mypy.state import state
 from mypy.subtypes import (
     are_parameters_compatible,
@@ -904,7 +905,11 @@ class TypeMeetVisitor(TypeVisitor[ProperType]):
                         t_args = t.args
                         s_args = self.s.args
                     for ta, sa, tv in zip(t_args, s_args, t.type.defn.type_vars):
-                        meet = self.meet(ta, sa)
+                        if isinstance(tv, TypeVarType) and tv.variance == CONTRAVARIANT:
+                            # A lower bound of C[T1] and C[T2] needs an upper bound of T1 and T2.
+                            meet = get_proper_type(join.join_types(ta, sa))
+                        else:
+                            meet = self.meet(ta, sa)
                         if isinstance(tv, TypeVarTupleType):
                             # Correctly unpack possible outcomes of meets of tuples: it can be
                             # either another tuple type or Never (normalized as *tuple[Never, ...])
